@@ -38,6 +38,7 @@ func runC16(c *Ctx) {
 	c16Capacity(c)
 	c16HeaderLast(c)
 	c16HeaderComplete(c)
+	c16OneHash(c)
 	c16Order(c)
 	c16NoReorder(c)
 	c16PeekLifetime(c)
@@ -574,19 +575,39 @@ func c16Select(c *Ctx) {
 		}
 	}
 	c.Check(rule, fnName(find)+"|start-slot", okStart, find.Pos(), fmt.Sprintf("values stored to kpos: %v (want add(.hpos,mul(mod(div(HASH,256),.hslots),8)) among them)", got))
-	// hash function agreement: the writers stream the key through spooky.New(0, 0) (cdbHash), the reader calls the
-	// one-shot spooky.Hash32 — the same function with seed 0 by the library's contract
+	// hash function agreement: the writers' hasher (what cdbHash returns) and the reader hash a key with the SAME entry
+	// point of the library, spooky.Hash32. (An earlier version of this rule accepted the streaming digest spooky.New(0,0)
+	// on the writer side "by the library's contract"; the pinned library breaks that contract for 96..191-byte inputs —
+	// finding F22 — so the rule now demands one function, see also C16.one-hash.)
 	okW, okR := false, false
 	var wdesc, rdesc string
 	if ch := c.FuncOpt(cdbShort, "cdbHash"); ch != nil {
 		c.Examined(ch)
-		for _, ci := range callInstrs(ch) {
-			if f := calleeOf(ci.Common()); f != nil && f.Pkg() != nil && strings.HasSuffix(f.Pkg().Path(), "go-spooky") {
-				wdesc = f.Name()
-				if f.Name() == "New" && len(ci.Common().Args) == 2 {
-					a, ok1 := constInt(ci.Common().Args[0])
-					b, ok2 := constInt(ci.Common().Args[1])
-					okW = ok1 && ok2 && a == 0 && b == 0
+		// the concrete type handed out, and its Sum32
+		for _, b := range ch.Blocks {
+			for _, in := range b.Instrs {
+				mi, ok := in.(*ssa.MakeInterface)
+				if !ok {
+					continue
+				}
+				ms := c.SSA.MethodSets.MethodSet(mi.X.Type())
+				if sel := ms.Lookup(mi.X.Type().Underlying().(*types.Pointer).Elem().(*types.Named).Obj().Pkg(), "Sum32"); sel != nil {
+					if sum := c.SSA.MethodValue(sel); sum != nil && sum.Blocks != nil {
+						c.Examined(sum)
+						for _, ci := range callInstrs(sum) {
+							if f := calleeOf(ci.Common()); f != nil && f.Pkg() != nil && strings.HasSuffix(f.Pkg().Path(), "go-spooky") {
+								wdesc = f.Name()
+								okW = f.Name() == "Hash32"
+							}
+						}
+					}
+				}
+			}
+		}
+		if wdesc == "" {
+			for _, ci := range callInstrs(ch) {
+				if f := calleeOf(ci.Common()); f != nil && f.Pkg() != nil && strings.HasSuffix(f.Pkg().Path(), "go-spooky") {
+					wdesc = f.Name() + " (streaming digest)"
 				}
 			}
 		}
@@ -597,7 +618,7 @@ func c16Select(c *Ctx) {
 			okR = f.Name() == "Hash32"
 		}
 	}
-	c.Check(rule, "hash-function", okW && okR, find.Pos(), fmt.Sprintf("writers hash with spooky.%s(0,0) streaming: %v; reader hashes with spooky.%s: %v", wdesc, okW, rdesc, okR))
+	c.Check(rule, "hash-function", okW && okR, find.Pos(), fmt.Sprintf("writers' hasher computes spooky.%s: %v; reader hashes with spooky.%s: %v (both must be the one-shot Hash32)", wdesc, okW, rdesc, okR))
 	c.Floor(rule, 13)
 }
 
@@ -1419,4 +1440,32 @@ func c16HeaderComplete(c *Ctx) {
 	if checked == 0 {
 		c.Undecided(rule, fnName(fn)+"|table-loop", fn.Pos(), "the position puts are not inside a loop")
 	}
+}
+
+// c16OneHash implements C16.one-hash: the writer, Make and the reader have to compute THE SAME function of a key.
+// In go-spooky the streaming digest (spooky.New … Write … Sum32) and the one-shot spooky.Hash32 are two entry
+// points, and in the pinned version of the library they disagree for inputs of 96 to 191 bytes (finding F22: every
+// key of such a length was written by Writer.Put / Make and could never be found by Cdb.find). The rule does not
+// evaluate any hash: it requires that every call into the hash library made by package go-cdb names one and the same
+// function, so that a disagreement between two entry points of the library cannot come between writer and reader.
+func c16OneHash(c *Ctx) {
+	rule := "C16.one-hash"
+	c.Rule(rule, "A8 who-calls: the functions of github.com/dgryski/go-spooky called from package go-cdb (writer, Make, reader, dump) are one single function")
+	used := map[string][]string{}
+	for _, fn := range c.OurFuncs("go-cdb") {
+		for _, ci := range callInstrs(fn) {
+			f := calleeOf(ci.Common())
+			if f == nil || f.Pkg() == nil || !strings.HasSuffix(f.Pkg().Path(), "go-spooky") {
+				continue
+			}
+			c.Examined(fn)
+			used[funcShort(f)] = append(used[funcShort(f)], fnName(fn))
+		}
+	}
+	var names []string
+	for n := range used {
+		names = append(names, fmt.Sprintf("%s (from %s)", n, strings.Join(used[n], ", ")))
+	}
+	sort.Strings(names)
+	c.Check(rule, "go-cdb|one-entry-point-into-the-hash-library", len(used) == 1, token.NoPos, fmt.Sprintf("hash library functions used: %v", names))
 }
